@@ -8,6 +8,7 @@
 #include "../../sim/cov.h"
 #include "../../sim/symtab.h"
 #include "../../spec/wire.h"
+#include <sys/mman.h>
 #include "plan.h"
 
 using sim::strf;
@@ -106,6 +107,7 @@ Plan parse_plan(const std::string &text) {
             p.clkgran = kv.u64("clkgran", 1);
             p.cantxq = kv.u64("cantxq", 0);
             p.soak = kv.u64("soak", 0);
+            p.lstack = kv.u64("lstack", 0);
         } else if (kv.op == "can") {
             CanW w;
             w.t = kv.u64("t");
@@ -130,6 +132,8 @@ Plan parse_plan(const std::string &text) {
             p.mut.push_back(m);
         } else if (kv.op == "inj") {
             p.inj.push_back(Inj{kv.u64("t"), sim::unhex(kv.str("data")), kv.str("note")});
+        } else if (kv.op == "clkjump") {
+            p.clkjump.push_back(Plan::ClkJump{kv.u64("t"), (int)kv.u64("node", 0), kv.i64("delta")});
         } else if (kv.op == "inrep") {
             InRep ir;
             ir.t = kv.u64("t"); ir.dt = std::max<uint64_t>(1, kv.u64("dt", 1)); ir.n = kv.u64("n"); ir.node = (int)kv.u64("node", 0);
@@ -161,6 +165,7 @@ struct RunState {
     bool quiet = false;
     uint64_t probes_recv = 0, probe_cargo = 0, effects_after_quiet = 0, damaged_recv = 0, recv_total = 0, handlers_done = 0;
     // soak runs: observable effects and datagrams received, sampled at the borders of an early and a late window of equal length
+    uint64_t late_recv = 0;  // datagrams received less than 4.3 s (the range of a 32-bit ns presentation time) before the end of the run
     uint64_t effects_total = 0, win_eff[6] = {0, 0, 0, 0, 0, 0}, win_recv[6] = {0, 0, 0, 0, 0, 0};
     uint64_t last_recv_frame = 0;
     bool last_recv_probe = false;
@@ -259,7 +264,9 @@ static void c19_final_check(RunState &rs) {
         else if (memcmp(e.data, a.data, e.len)) attr = "data";
         else if (e.fd && (e.flags & CANFD_BRS) != (a.flags & CANFD_BRS)) attr = "flags.BRS";
         else if (e.fd && (e.flags & CANFD_ESI) != (a.flags & CANFD_ESI)) attr = "flags.ESI";
-        else if (e.fd && (e.flags & CANFD_FDF) != (a.flags & CANFD_FDF)) attr = "flags.FDF";
+        // (an FD frame read from the bus carries CANFD_FDF in its flags byte on current kernels and not on older ones; it is an FD
+        // frame either way, which is what the ACF fdf bit transports: a frame that had the flag must keep it, one that had not may gain it)
+        else if (e.fd && (e.flags & CANFD_FDF) && !(a.flags & CANFD_FDF)) attr = "flags.FDF";
         if (attr)
             violation(strf("frame-mismatch:%s", attr), strf("frame %zu of %zu (datagram #%llu): sent %s, listener wrote %s", i, rs.expected.size(),
                                                              (unsigned long long)rs.expected_src[i], can_str(e).c_str(), can_str(a).c_str()));
@@ -488,6 +495,12 @@ void exec_plan(const std::string &text, bool verbose) {
     stderr = se;
 
     setup_nodes(rs);
+    if (p.lstack >= 64 && p.lstack * 1024 < sim::Tasks::kStackSize && rs.listener >= 0) {
+        // the listener runs on a smaller stack (real deployments configure 64-256 KiB for such daemons): the unused lower part becomes inaccessible
+        sim::Task *lt = w.tasks.get(w.nodes[rs.listener].task);
+        size_t cut = lt->stack_size - p.lstack * 1024;
+        if (mprotect(lt->stack, cut, PROT_NONE) == 0) { lt->stack += cut; lt->stack_size -= cut; w.count("cfg.small_listener_stack"); }
+    }
 
     const bool c19 = p.prop == "C19";
     w.on_call_budget = [c19](Node &n) {
@@ -496,6 +509,14 @@ void exec_plan(const std::string &text, bool verbose) {
         if (c19) violation(strf("crash:step-budget:%s", fn.c_str()), strf("%s made more than %llu system calls handling one datagram", n.name.c_str(), (unsigned long long)g_rs->w->call_budget));
         violation(strf("step-budget:%s", fn.c_str()), strf("%s made more than %llu system calls after receiving frame#%llu without returning to recv/poll",
                                                            n.name.c_str(), (unsigned long long)g_rs->w->call_budget, (unsigned long long)n.handler_frame));
+    };
+    w.hooks.on_fd_growth = [c19](World &w, int node, int now_open, int first_open) {
+        Node &n = w.nodes[node];
+        n.in_handler = false;
+        violation(strf("%sfd-growth:%s", c19 ? "crash:" : "", n.prog.c_str()),
+                  strf("%s holds %d open descriptors when it waits for the next datagram; it held %d when it waited for the first one (%llu datagrams received): "
+                       "descriptors are opened per datagram and never closed, the process fails when the table is full",
+                       n.name.c_str(), now_open, first_open, (unsigned long long)g_rs->recv_total));
     };
     w.hooks.on_stack_growth = [c19](World &w, int node, uint64_t bytes, unsigned times) {
         Node &n = w.nodes[node];
@@ -531,6 +552,7 @@ void exec_plan(const std::string &text, bool verbose) {
         if (node != rs.listener) return;
         rs.listener_started = true;
         rs.recv_total++;
+        if (w.now + 4300000000ULL > w.t_origin + rs.plan.tend) rs.late_recv++;
         if (f.damaged || f.src_node < 0) { rs.damaged_recv++; w.count("probe.hostile_datagram_received"); }
         if (c19 || rs.plan.scen == "can") {
             auto it = rs.cargo.find(f.id);
@@ -615,6 +637,16 @@ void exec_plan(const std::string &text, bool verbose) {
             f.id = w.next_frame_id++;
             w.count("fault.synth");
             w.inject_to_node(g_rs->listener, f);
+        });
+    }
+    for (auto &cj : p.clkjump) {
+        Plan::ClkJump j = cj;
+        w.at(w.t_origin + j.t, [&w, j] {
+            if (j.node < (int)w.nodes.size()) {
+                w.nodes[j.node].clock_offset += j.delta;
+                w.count("fault.clock_step");
+                w.log("clock-step", (uint64_t)j.node, (uint64_t)j.delta);
+            }
         });
     }
     for (auto &s : p.stall) {
@@ -724,6 +756,18 @@ void exec_plan(const std::string &text, bool verbose) {
         for (auto &e : w.fds)
             if (e.node == rs.listener && (e.kind == FdEnt::PACKET || e.kind == FdEnt::UDP) && !e.rxq.empty() && p.scen != "crfT")
                 violation("probe-lost:unread", strf("%zu datagrams still unread at the end of the run", e.rxq.size()));
+        {
+            Node &hn = w.nodes[rs.listener];
+            w.counters["listener.heap_allocs"] = hn.heap_allocs;
+            if (hn.heap_first >= 0 && hn.heap_live > hn.heap_first + (int64_t)rs.late_recv) w.counters["listener.heap_blocks_live_at_end"] = (uint64_t)(hn.heap_live - hn.heap_first);
+            // CVF/AAF listeners queue one block per accepted datagram and release it when it is presented; every presentation time lies
+            // within 4.3 s (32-bit nanosecond timestamps) of its arrival, so at most what arrived in the last 4.3 s of the run may be left
+            if ((p.scen == "cvf" || p.scen == "aaf") && !p.soak && hn.heap_first >= 0 && hn.heap_live > hn.heap_first + (int64_t)rs.late_recv)
+                violation(strf("heap-growth:%s", hn.prog.c_str()),
+                          strf("%lld heap blocks (%lld bytes) that the listener allocated while handling datagrams are still allocated after everything queued has been presented "
+                               "(%llu allocations, %llu datagrams received): memory is lost per datagram, the process fails when it runs out",
+                               (long long)(hn.heap_live - hn.heap_first), (long long)hn.heap_live_bytes, (unsigned long long)hn.heap_allocs, (unsigned long long)rs.recv_total));
+        }
         if (p.soak) {
             // the same kind of valid traffic that produced output early in the run must still produce output late in the run
             uint64_t ea = rs.win_eff[1] - rs.win_eff[0], ra = rs.win_recv[1] - rs.win_recv[0];
